@@ -14,8 +14,6 @@ import (
 	"runtime/debug"
 	"testing/synctest"
 
-	"github.com/algorand/websocket"
-
 	"github.com/algorand/go-algorand/network"
 	"github.com/algorand/go-algorand/network/vpack"
 	"github.com/algorand/go-algorand/protocol"
@@ -24,19 +22,18 @@ import (
 )
 
 type codecCfg struct {
-	Steps        int
-	En           [2]bool // EnableVoteCompression of A, B
-	Tbl          [2]uint // configured StatefulVoteCompressionTableSize of A, B
-	Senders      int
-	Dilution     uint64
-	Props        int
-	StartRound   uint64
-	WCorrupt     int
-	WReset       int
-	WUncomp      int
-	WReplay      int
-	DeliverBias  int // out of 8: how many op codes mean "deliver"
-	CompareEvery int
+	Steps       int
+	En          [2]bool // EnableVoteCompression of A, B
+	Tbl         [2]uint // configured StatefulVoteCompressionTableSize of A, B
+	Senders     int
+	Dilution    uint64
+	Props       int
+	StartRound  uint64
+	WCorrupt    int
+	WReset      int
+	WUncomp     int
+	WReplay     int
+	DeliverBias int // out of 8: how many op codes mean "deliver"
 }
 
 type appMsg struct {
@@ -48,13 +45,12 @@ type appMsg struct {
 }
 
 type flight struct {
-	id        int
-	mtype     int
-	data      []byte
-	enc       []byte
-	orig      *appMsg
-	control   bool   // abort message produced by the real code
-	corrupted string // non-empty: what the simulator did to it
+	id      int
+	mtype   int
+	data    []byte
+	enc     []byte
+	orig    *appMsg
+	control bool // abort message produced by the real code
 }
 
 type side struct {
@@ -96,7 +92,6 @@ type codecSim struct {
 }
 
 func newCodecSim(b *base) *codecSim { return &codecSim{base: b} }
-func (s *codecSim) core() *base     { return s.base }
 
 var tableChoices = []uint{16, 16, 16, 32, 32, 64, 20, 128, 256, 1024, 5000, 16, 0, 8}
 
@@ -137,7 +132,6 @@ func (s *codecSim) drawConfig() {
 	c.WUncomp = pick("uncomp", 2, 15)
 	c.WReplay = pick("replay", 2, 15)
 	c.DeliverBias = tp.Range("cfg.deliver", 2, 5)
-	c.CompareEvery = 1
 }
 
 // safely runs f and converts a panic into a value + stack.
@@ -235,7 +229,7 @@ func (s *codecSim) flush() {
 
 func (s *codecSim) checkFallback(when string) {
 	a, b := s.sd[0], s.sd[1]
-	if a.closed || b.closed || a.forged || b.forged {
+	if a.closed || b.closed {
 		return
 	}
 	ca, cb := a.peer.CodecState(false), b.peer.CodecState(false)
@@ -955,5 +949,3 @@ func (s *codecSim) finish(res *kernel.RunResult) {
 	res.Nontrivial = s.vpFrames >= 10 && s.refHits >= 3 && s.compares >= 5
 	res.Sample = map[string]any{"steps": s.step, "cfg": fmt.Sprintf("%+v", s.cfg), "vp_frames": s.vpFrames, "frames_with_refs": s.refHits, "state_compares": s.compares, "tape_len": len(s.tape.Rec)}
 }
-
-var _ = websocket.BinaryMessage
